@@ -88,6 +88,90 @@ def run_case(ops, FC, header):
     return out
 
 
+def raw(t):
+    s, e, name, strand, data = t
+    return [int(s), int(e), name, RSTR.get(strand, 3), data if (data is None or isinstance(data, str)) else repr(data)]
+
+
+def all_features(f):
+    """(contig, start, end, name, strand, data) of everything in the container, through the public iterator"""
+    try:
+        return [tuple(t) for t in f]
+    except Exception:
+        return [(c,) + tuple(t) for c, l in getattr(f, 'features', {}).items() for t in l]
+
+
+def xquery(f, op):
+    k = op[0]
+    if k == 'at':
+        _, c, x, q, o = op
+        return f.findFeaturesAt(c, x, STR[q]) if o == 0 else f.findFeaturesAt(c, x, STR[q], OPT[o])
+    if k == 'between':
+        return f.findFeaturesBetween(op[1], op[2], op[3], STR[op[4]])
+    if k == 'nl':
+        return f.findNearestLeftFeature(op[1], op[2], STR[op[3]])
+    if k == 'nr':
+        return f.findNearestRightFeature(op[1], op[2], STR[op[3]])
+    if k == 'near':
+        return f.findNearestFeature(op[1], op[2], STR[op[3]])
+    if k == 'brk':
+        return f.findFeaturesBetweenBRK(op[1], op[2], op[3], STR[op[4]])
+    raise ValueError(k)
+
+
+def run_xcase(ops, FC):
+    """extension cases (tools/c16.py gen_xcase): real strings for contigs / names / data, loaders on real text files.
+    Every lookup answer comes with the answer of a FRESH container holding everything added so far ('fresh')."""
+    f = FC()
+    out = []
+    nfile = 0
+    for op in ops:
+        k = op[0]
+        try:
+            if k == 'add':
+                _, c, s, e, n, st, d = op
+                f.addFeature(c, s, e, n, STR[st], d)
+                out.append({'ok': []})
+            elif k == 'sort':
+                f.sort()
+                out.append({'ok': []})
+            elif k in ('gtf', 'bed'):
+                nfile += 1
+                path = os.path.join(os.environ.get('SCMO_SCRATCH', '.'), 'x%d_%d.%s' % (os.getpid(), nfile, k))
+                with open(path, 'w') as h:
+                    h.write(''.join(l + '\n' for l in op[2]))
+                if op[1].get('remapKeys') is not None:
+                    f.remapKeys = dict(op[1]['remapKeys'])
+                kw = {a: b for a, b in op[1].items() if a != 'remapKeys'}
+                try:
+                    if k == 'gtf':
+                        f.loadGTF(path, **kw)
+                    else:
+                        f.loadBED(path, **kw)
+                finally:
+                    os.remove(path)
+                out.append({'ok': [], 'contigs': sorted(set(t[0] for t in all_features(f)))})
+            else:
+                before = all_features(f)
+                r = xquery(f, op)
+                res = {'ok': [raw(t) for t in r]}
+                if k in ('nl', 'nr', 'near', 'brk'):
+                    g = FC()
+                    for t in before:
+                        g.addFeature(*t[:4], strand=t[4], data=t[5])
+                    g.sort()
+                    res['fresh'] = [raw(t) for t in xquery(g, op)]
+                out.append(res)
+        except BaseException as e:
+            res = {'error': '%s: %s' % (type(e).__name__, str(e)[:120])}
+            if k in ('gtf', 'bed'):
+                res['contigs'] = sorted(set(t[0] for t in all_features(f)))
+            out.append(res)
+            if k not in ('add', 'gtf', 'bed'):
+                break
+    return out
+
+
 def handler(p):
     import pysam
     old = sys.stdout
@@ -107,6 +191,31 @@ def handler(p):
                 small = c16.shrink_with(run, ops, key)
                 shrunk.append({'ops': small, 'impl': run(small)})
             return {'shrunk': shrunk}
+        if 'attrs' in p:
+            # the attribute column as loadGTF itself parses it: store_all=True keeps tuple(keyValues.items()) + ('type', ..) as data
+            path = os.path.join(os.environ.get('SCMO_SCRATCH', '.'), 'attrs_%d.gtf' % os.getpid())
+            with open(path, 'w') as h:
+                for i, a in enumerate(p['attrs']):
+                    h.write('chr1\tsrc\tgene\t%d\t%d\t.\t+\t.\t%s\n' % (i + 1, i + 1, a))
+            f = FC()
+            try:
+                f.loadGTF(path, store_all=True, identifierFields=['gene_id'])
+            finally:
+                os.remove(path)
+            got = {}
+            for t in all_features(f):
+                got[int(t[1])] = [[str(k), str(v)] for k, v in t[5]]
+            return {'attrs': [got.get(i) for i in range(len(p['attrs']))], 'file': sys.modules[FC.__module__].__file__}
+        if 'xcases' in p:
+            res = []
+            for ops in p['xcases']:
+                for nm in ('findFeaturesAt', 'findNearestFeature'):
+                    getattr(getattr(FC, nm, None), 'cache_clear', lambda: None)()
+                try:
+                    res.append(run_xcase(ops, FC))
+                except BaseException as e:
+                    res.append([{'error': 'harness: %s: %s' % (type(e).__name__, e)}])
+            return {'results': res, 'file': sys.modules[FC.__module__].__file__}
         res = []
         for ops in p['cases']:
             # the lru_cache is one per class: start every case from an empty one (harness hygiene only;
